@@ -753,7 +753,7 @@ def generate(unit_dir, vacuity=False, mutate=None):
                 text = mutate(file, path + ('#' + nm if d == 'region' else ''), text)
             # insertion points
             inserts = []  # (offset, lines, tpl_line0, newline_after_only)
-            head_lines = tail_lines = None
+            head_lines = tail_lines = prologue_lines = None
             if d == 'fn':
                 body_open, body_close = fn_parts(text)
             loops = None
@@ -766,6 +766,8 @@ def generate(unit_dir, vacuity=False, mutate=None):
                     head_lines = (lines, tl)
                 elif kind == 'tail':
                     tail_lines = (lines, tl)
+                elif kind == 'prologue':
+                    prologue_lines = (lines, tl)
                 elif kind == 'loop':
                     am = re.match(r'(\d+)(?:\s+iter=(\w+))?', arg)
                     if not am:
@@ -817,6 +819,9 @@ def generate(unit_dir, vacuity=False, mutate=None):
                 for k, ln in enumerate(head_lines[0]):
                     out.add_tpl(ln, head_lines[1] + k, nm)
                 out.add_tpl('{', head_lines[1], nm)
+                if prologue_lines:
+                    for k, ln in enumerate(prologue_lines[0]):
+                        out.add_tpl(ln, prologue_lines[1] + k, nm)
             inserts.sort(key=lambda x: x[0])
             pos = 0
             curline = l0
